@@ -283,6 +283,11 @@ type Framer struct {
 	lastFrame Frame
 	errDetail error
 
+	// headersStreamErr is true if the error returned by the last
+	// ReadFrame is a StreamError raised for a complete but malformed
+	// HEADERS (+CONTINUATION) header block (see readMetaFrame).
+	headersStreamErr bool
+
 	// lastHeaderStream is non-zero if the last frame was an
 	// unfinished HEADERS/CONTINUATION.
 	lastHeaderStream uint32
@@ -484,6 +489,7 @@ func terminalReadFrameError(err error) bool {
 // reader.
 func (fr *Framer) ReadFrame() (Frame, error) {
 	fr.errDetail = nil
+	fr.headersStreamErr = false
 	if fr.lastFrame != nil {
 		fr.lastFrame.invalidate()
 	}
@@ -1558,11 +1564,13 @@ func (fr *Framer) readMetaFrame(f *HeadersFrame) (*MetaHeadersFrame, error) {
 	}
 	if invalid != nil {
 		fr.errDetail = invalid
+		fr.headersStreamErr = true
 		errMsg := fmt.Sprintf("readMetaFrame err: %s", invalid)
 		return nil, StreamError{mh.StreamID, ErrCodeProtocol, errMsg}
 	}
 	if err := mh.checkPseudos(); err != nil {
 		fr.errDetail = err
+		fr.headersStreamErr = true
 		errMsg := fmt.Sprintf("readMetaFrame err: %s", err)
 		return nil, StreamError{mh.StreamID, ErrCodeProtocol, errMsg}
 	}
